@@ -411,7 +411,7 @@ class FileUploadHandler(UploadHandler):
         # The temporary name is unpredictable and the file is created exclusively:
         # whatever already exists in the directory - a file, or a link leading
         # elsewhere - is neither written through nor replaced nor removed
-        temp = target.with_name(f".{target.name}.{secrets.token_hex(8)}.upload")
+        temp = target.with_name(f".{secrets.token_hex(8)}.upload")
         try:
             target.parent.mkdir(parents=True, exist_ok=True)
             fd = os.open(temp, os.O_WRONLY | os.O_CREAT | os.O_EXCL, 0o666)
